@@ -233,15 +233,32 @@ func c13(e *Env) {
 		ob5.Check(must[n]&1 != 0, g.Where(n), "MkdirAll("+strings.Join(cand, ", ")+") for all outputs precedes the rename", "no MkdirAll of Dir(Path(x)) (or of the audit file's directory, which is the same) is certain before the rename: an output in a not-yet-existing directory cannot be finalised; a MkdirAll of Dir(TempPath) relative to the working directory creates stray __parent__*/__fsroot__ directories instead")
 	}
 	// ---- R6 placeholder alphabet (finding K3)
+	// the path-validity pattern: the regular expression the IP constructor matches the user's path against
+	// (compiled inline or kept in a package-level variable)
 	valid := ""
-	if piv := p.Func("pathIsValid"); piv != nil {
-		for _, b := range piv.Blocks {
-			for _, in := range b.Instrs {
-				if c, ok := in.(*ssa.Call); ok && c.Call.StaticCallee() != nil && strings.HasPrefix(c.Call.StaticCallee().String(), "regexp.") && len(c.Call.Args) > 0 {
-					if k, ok := c.Call.Args[0].(*ssa.Const); ok && k.Value != nil && k.Value.Kind() == constant.String {
-						valid = constant.StringVal(k.Value)
-					}
+	if nfip := p.Func("NewFileIP"); nfip != nil {
+		if gv := e.XG(nfip); gv != nil {
+			fsy := e.fsym()
+			for _, n := range gv.Nodes {
+				if n.Call == nil || n.Kind == core.KAfter {
+					continue
 				}
+				var pat *core.Sym
+				switch {
+				case n.IsCallTo("(*regexp.Regexp).MatchString", "(*regexp.Regexp).Match"):
+					pat = fsy.InCtx(n.Ctx, n.Call.Args[0])
+				case n.IsCallTo("regexp.MatchString", "regexp.Match"):
+					pat = fsy.InCtx(n.Ctx, n.Call.Args[0])
+				}
+				if pat == nil {
+					continue
+				}
+				pat.Walk(func(z *core.Sym) bool {
+					if z.Op == "lit" && valid == "" {
+						valid = z.Lit
+					}
+					return valid == ""
+				})
 			}
 		}
 	}
